@@ -721,6 +721,13 @@ func (ce *callEngine) callNativeFunc(ctx context.Context, m *wasm.ModuleInstance
 			if err := m.FailIfClosed(); err != nil {
 				panic(err)
 			}
+			// m is the module of the calling frame. The module closed on context done is the one this
+			// call entered through, which differs from m two or more frames inside an imported module.
+			if entered := ce.f.moduleInstance; entered != m {
+				if err := entered.FailIfClosed(); err != nil {
+					panic(err)
+				}
+			}
 			frame.pc++
 		case operationKindUnreachable:
 			panic(wasmruntime.ErrRuntimeUnreachable)
